@@ -53,6 +53,9 @@ type Explorer struct {
 	MaxPreempt   int
 	Crashes      int
 	violSeen     map[string]bool
+	WitnessEvery int
+	Witnesses    []map[string]interface{}
+	witnessSeen  int
 }
 
 type SolverStat struct {
@@ -202,6 +205,11 @@ func (w *Worker) runPath(prefix []Decision) {
 	r.env = newEnv(r)
 	w.solver.Push()
 	r.execute(ex.Entry)
+	if r.outcome == OutOK && ex.WitnessEvery > 0 && ex.wantWitness() {
+		if res, model := w.solver.CheckWithModel(r.inputs); res == Sat {
+			ex.addWitness(r.decodeInputs(model))
+		}
+	}
 	w.solver.Pop()
 
 	ex.mu.Lock()
@@ -330,4 +338,23 @@ func shortFile(f string) string {
 		}
 	}
 	return f
+}
+
+// a handful of passing paths are pinned (solver model of the path condition)
+// and later re-run natively: translator validation of the models.
+func (ex *Explorer) wantWitness() bool {
+	ex.mu.Lock()
+	defer ex.mu.Unlock()
+	ex.witnessSeen++
+	n := ex.witnessSeen
+	// first 3 paths, then exponentially sparser, at most 8
+	return len(ex.Witnesses) < 8 && (n <= 3 || n&(n-1) == 0)
+}
+
+func (ex *Explorer) addWitness(in map[string]interface{}) {
+	ex.mu.Lock()
+	if len(ex.Witnesses) < 8 {
+		ex.Witnesses = append(ex.Witnesses, in)
+	}
+	ex.mu.Unlock()
 }
